@@ -12,7 +12,7 @@ Act ==
        [] sel = 6          -> \E s \in SeqIds : Do([a |-> "members", seq |-> s])
        [] sel = 7          -> \E s \in SeqIds, n \in {1, 2} : Do([a |-> "query", seq |-> s, n |-> n, id |-> Id])
        [] sel \in 8..11    -> \E evs \in Bursts : Do([a |-> "emit", evs |-> evs])
-       [] sel = 12         -> IF steps > 3 /\ steps % 7 = 0
+       [] sel = 12         -> IF steps > 3 /\ steps % 7 = 0 /\ C.mon = 0   \* (a debug monitor turns a burst into a log storm)
                               THEN Do([a |-> "burst", n |-> 1, m |-> BufSize + 88, id |-> Id * 1000])
                               ELSE \E evs \in Bursts : Do([a |-> "emit", evs |-> evs])
 Skip == sel # 0 /\ sel' = 0 /\ UNCHANGED vars
